@@ -424,6 +424,15 @@ def synth(ctx, samples, model, mclass, seed):
             else:
                 args = {} if mclass == 'circle-string' else {'mask': mask}
                 z = ifg.Interferogram.render_from_psd(size, samples, rms=rho, psd_fcn=fn, **args, **kw).data
+            # history: a surface is synthesised and its PSD taken on the same sampling (the psd() contract judges the
+            # axes / normalisation of this later call: shared or cached frequency vectors must not have been disturbed)
+            if samples >= 4:
+                CUR['desc'] = dict(desc, history=f'{form} -> psd on the same grid')
+                CUR['wclass'] = 'auto'
+                zz = np.nan_to_num(np.asarray(z, dtype=float))
+                if np.isfinite(zz).all() and np.abs(zz).max() > 0:
+                    ctx.observe('history.synth-then-psd')
+                    ifg.psd(zz, size / (samples - 1))
             v = z[np.isfinite(z)]
             ctx.observe('synth.rms')
             if v.size == 0:
